@@ -149,7 +149,9 @@ def bicgstab(A, b, x0=None, tol=1e-5, criteria='rr',
         AMs = A @ Ms
 
         # omega = (A*M*s_j, s_j)/(A*M*s_j, A*M*s_j)
-        omega = np.inner(AMs.conjugate(), s)/np.inner(AMs.conjugate(), AMs)
+        # (s_j = 0 means x_j + alpha*M*p_j is already the solution: take omega = 0, not 0/0)
+        AMsAMs = np.inner(AMs.conjugate(), AMs)
+        omega = np.inner(AMs.conjugate(), s)/AMsAMs if AMsAMs != 0 else 0.0
 
         # x_{j+1} = x_j +  alpha*M*p_j + omega*M*s_j
         x = x + alpha * Mp + omega * Ms
@@ -159,7 +161,7 @@ def bicgstab(A, b, x0=None, tol=1e-5, criteria='rr',
 
         # beta_j = (r_{j+1}, rstar)/(r_j, rstar) * (alpha/omega)
         rrstarNew = np.inner(rstar.conjugate(), r)
-        beta = (rrstarNew / rrstarOld) * (alpha / omega)
+        beta = (rrstarNew / rrstarOld) * (alpha / omega) if AMsAMs != 0 else 0.0
         rrstarOld = rrstarNew
 
         # p_{j+1} = r_{j+1} + beta*(p_j - omega*A*M*p)
